@@ -534,8 +534,10 @@ pub trait MapValidBasic<T: IsNone>: TrustedLen<Item = T> + Sized {
                             if last_value == Some(v.clone()) {
                                 None
                             } else {
+                                // position i closes the previous run only if there was one (not after leading nulls)
+                                let out = if last_value.is_some() { Some(i) } else { None };
                                 last_value = Some(v);
-                                Some(i)
+                                out
                             }
                         } else {
                             let out = if last_value.is_some() { Some(i) } else { None };
